@@ -46,6 +46,10 @@ claimed["C13"] = dict(engine="aspen-kvcore", cat="exploration", ref="DESIGN.md ย
    text="Same two engines as C06 with observer oracles: (a) kvcore: the ingress segment's accepted output (the only thing routed to the persist splitter and on to observers) carries each (key, version, leaseholder) at most once per node under any redelivery/duplication order, never an operation that lost to a stored newer one, and every operation that changed the stored state; (b) cluster: on every node an unfiltered and a host-leaseholder-filtered subscriber record notifications while gossip, recovery, duplication, loss and restarts run: no write is notified twice, never an older write after a newer one of the same key, the filtered stream is a subsequence of the unfiltered one.",
    note="Cluster-level notifications are identified by their unique written value (the observable exposes no version). Completeness is asserted in the kvcore engine only (subscriber keeps up by construction).",
    tech=TECH+": seeded delivery orders/duplication into the real ingress pipeline plus whole-node simulation with network faults; per-subscriber history oracles")
+claimed["C11"] = dict(engine="aspen-pledge", cat="exploration", ref="DESIGN.md ยง5 C11",
+   text="The real pledge protocol (Pledge on the joining side; responsible.propose/buildQuorum/consultQuorum and juror.verdict on every member) over the in-memory unary network in a synctest bubble, every goroutine under the seeded scheduler (random / sticky / PCT) on the virtual clock: 1-4 settled initial members, 1-4 pledges started at drawn times through drawn peer lists, membership views served through Config.Candidates that go stale by construction (admitted members become known to the others one by one at drawn times, or never), and a network profile (request loss, delay up to and beyond the request timeout, delivery after the caller gave up) that stops at a drawn time. Oracles: no two admissions share a key and none reuses a member's key; the key handed out was approved by a majority of the coordinator's view; the response carries the cluster key; no deadlock.",
+   note="Known finding: two coordinators whose views differ can assemble disjoint majorities and admit two nodes under one key (no faults needed); attributed only when the approving quorums share no juror AND the coordinators' views differ. The statement makes no progress claim: pledges that are not admitted within the budget (observed cause: all keys in the proposal window burned by earlier failed rounds) are counted, not reported. Initial members know each other (a view that lacks an older member while no juror remembers its key is not reachable).",
+   tech=TECH+": concurrent pledges under a seeded goroutine scheduler with virtual-time timeouts, stale membership views and network faults; uniqueness/quorum oracles over the recorded requests")
 claimed["C12"] = dict(engine="aspen-gossip", cat="exploration", ref="DESIGN.md ยง5 C12",
    text="The real sync/ack/ack2 membership gossip over the real cluster store of 2-4 nodes (optionally plus a member that is not a running node, with a zero or non-zero heartbeat) wired through the in-memory unary network. (a) c12-seq: seeded sequences of exchange(i,j), tick(i), host state change(i), GossipOnce(i) with the production peer choice, exchanges that lose ack2, and restart(i) from the persisted copy with a generation bump, from complete, disjoint, chain or random initial views; after every operation: no heartbeat of any member regresses in any view, no record changes without a heartbeat advance, every held record is one the member published, bystanders unchanged, no member forgotten; finally every unordered pair exchanges once (seeded order and direction) and all views must be identical and complete. (b) c12-conc: the same operations issued by one task per node under the seeded scheduler (handlers run in the initiator's goroutine), monotonicity sampled after every task step, then the same final phase.",
    note="In-package harness on aspen/internal/cluster/gossip. A restarted node may forget what it learnt about other members since its last flush (baseline reset); its own record must supersede through the generation. Two genuine defects found and repaired (zero-heartbeat member not returned in ack2; unsynchronised copy-modify-set in the cluster store).",
@@ -92,6 +96,7 @@ m = {
   {"name": "cesium-stream", "path": "/verif/harness/cesium/zz_verif_c20_test.go", "serves_properties": ["C20", "C05"], "kind_free_text": "goroutine-tier simulation of writers, relay and streamers"},
   {"name": "aspen-kvcore", "path": "/verif/harness/aspen/internal/kv", "serves_properties": ["C06", "C13"], "kind_free_text": "in-package seeded delivery orders into the real kv ingress pipeline"},
   {"name": "aspen-cluster", "path": "/verif/harness/aspen/zz_verif_cluster_test.go", "serves_properties": ["C06", "C13"], "kind_free_text": "whole aspen nodes under the seeded scheduler over the in-memory transport with fault-injecting wrapper"},
+  {"name": "aspen-pledge", "path": "/verif/harness/aspen/internal/cluster/pledge", "serves_properties": ["C11"], "kind_free_text": "goroutine-tier simulation of concurrent pledges with stale views and network faults"},
   {"name": "aspen-gossip", "path": "/verif/harness/aspen/internal/cluster/gossip", "serves_properties": ["C12"], "kind_free_text": "in-package op-tier + goroutine-tier simulation of membership gossip over the real cluster store"},
   {"name": "cesium-crash", "path": "/verif/harness/cesium/zz_verif_c02_test.go", "serves_properties": ["C02"], "kind_free_text": "crash-point enumeration over the simulated disk's mutation log"},
  ],
